@@ -18,6 +18,13 @@ import doc_common as dc
 import export_schema
 import file_common as fc
 import gen_common as gc
+import types_common as tc
+
+
+_U = datetime.datetime
+DST_ZONES = [tc.RuleTZ(-300, -240, _U(2021, 3, 14, 7), _U(2021, 11, 7, 6), ("EST", "EDT")),
+             tc.RuleTZ(630, 660, _U(2021, 10, 2, 15, 30), _U(2022, 4, 2, 15), ("LHST", "LHDT")),
+             tc.RuleTZ(60, 0, _U(2021, 10, 31, 1), _U(2022, 3, 27, 1), ("IST", "GMT"))]
 
 
 def perturb_datetimes(inst, schema, rnd):
@@ -33,7 +40,16 @@ def perturb_datetimes(inst, schema, rnd):
                     setattr(inst, a["a"], decimal.Decimal(rnd.choice(["0.00", "-0.000", "1.50", "100", "0", "-0", "0.10", "12345678901234567890123456789.123"])))
                 except Exception:
                     pass
-            if isinstance(v, datetime.datetime) and rnd.random() < 0.5:
+            if isinstance(v, datetime.datetime) and rnd.random() < 0.12:
+                # a zone with daylight saving: instants in and around the repeated hour (fold) and the skipped hour
+                z = rnd.choice(DST_ZONES)
+                edge = rnd.choice([z.start, z.end])
+                u = edge + datetime.timedelta(microseconds=rnd.choice([-1800000000, -400, -1, 0, 499, 500, 1800000000, 3599999600, 5400000000]))
+                try:
+                    setattr(inst, a["a"], u.replace(tzinfo=datetime.timezone.utc).astimezone(z))
+                except Exception:
+                    pass
+            elif isinstance(v, datetime.datetime) and rnd.random() < 0.5:
                 off = rnd.choice([-300, 330, -570, 60, 840, -720, -30])
                 tz = datetime.timezone(datetime.timedelta(minutes=off), rnd.choice(["EST", "X Y", "é"]))
                 v2 = (v + datetime.timedelta(microseconds=rnd.choice([0, 1, 499, 500, 501, 999]))).astimezone(tz)
